@@ -11,6 +11,9 @@
 #include <gmssl/hex.h>
 #include <gmssl/pem.h>
 #include <gmssl/x509.h>
+#include <gmssl/x509_ext.h>
+#include <gmssl/oid.h>
+#include <time.h>
 #include <gmssl/cms.h>
 #include <gmssl/sm4.h>
 #include <gmssl/tls.h>
@@ -126,6 +129,49 @@ int main(int argc, char **argv)
 			cap_begin(); rc = sm2_private_key_from_der(&kr, &cq, &ql); secret(d, 32); if (o1) secret(o1, 32); cap_end(nm, 0, rc); c1[i] ^= (uint8_t)(1 << b); }
 		for (size_t i = 0; i < n2; i++) for (int b = 0; b < 8; b += 7) { c2[i] ^= (uint8_t)(1 << b); cq = c2; ql = n2; snprintf(nm, sizeof nm, "privatekeyinfo_flip:%zu.%d", i, b);
 			cap_begin(); rc = sm2_private_key_info_from_der(&kr, &at, &al, &cq, &ql); secret(d, 32); if (o2) secret(o2, 32); cap_end(nm, 0, rc); c2[i] ^= (uint8_t)(1 << b); }
+	}
+	// ---- loading credentials into a TLS context from files: certificates, password-protected keys; right and wrong passwords, a damaged key file, a key that does not
+	// match its certificate -- passwords and scalars stay off fd 1/2 on every branch ----
+	{
+		const char *pa = "S1gnKeyPassw0rd#A", *pb = "Kenc-Key-Passphrase-B", *wrong = "n0t-the-passw0rd";
+		SM2_KEY ks, ke; sm2_key_generate(&ks); sm2_key_generate(&ke); uint8_t ds[32], de[32]; sm2_z256_to_bytes(ks.private_key, ds); sm2_z256_to_bytes(ke.private_key, de);
+		uint8_t name[256]; size_t nl = 0; x509_name_set(name, &nl, sizeof name, "CN", "BJ", "HD", "Org", "Unit", "leak test");
+		uint8_t serial[8] = {1, 2, 3, 4, 5, 6, 7, 8}, ex1[128], ex2[128], c1[1024], c2[1024]; size_t e1 = 0, e2 = 0, l1 = 0, l2 = 0; uint8_t *q;
+		x509_exts_add_key_usage(ex1, &e1, sizeof ex1, 1, X509_KU_DIGITAL_SIGNATURE); x509_exts_add_key_usage(ex2, &e2, sizeof ex2, 1, X509_KU_KEY_ENCIPHERMENT);
+		time_t nb = time(NULL) - 86400, na = nb + 86400 * 300;
+		q = c1; x509_cert_sign_to_der(X509_version_v3, serial, 8, OID_sm2sign_with_sm3, name, nl, nb, na, name, nl, &ks, NULL, 0, NULL, 0, ex1, e1, &ks, SM2_DEFAULT_ID, SM2_DEFAULT_ID_LENGTH, &q, &l1);
+		serial[7] = 9; q = c2; x509_cert_sign_to_der(X509_version_v3, serial, 8, OID_sm2sign_with_sm3, name, nl, nb, na, name, nl, &ke, NULL, 0, NULL, 0, ex2, e2, &ks, SM2_DEFAULT_ID, SM2_DEFAULT_ID_LENGTH, &q, &l2);
+		FILE *f;
+		f = fopen("/tmp/leak_chain1.pem", "w"); x509_cert_to_pem(c1, l1, f); fclose(f);
+		f = fopen("/tmp/leak_chain2.pem", "w"); x509_cert_to_pem(c1, l1, f); x509_cert_to_pem(c2, l2, f); fclose(f);
+		f = fopen("/tmp/leak_sign.pem", "w"); sm2_private_key_info_encrypt_to_pem(&ks, pa, f); fclose(f);
+		f = fopen("/tmp/leak_kenc.pem", "w"); sm2_private_key_info_encrypt_to_pem(&ke, pb, f); fclose(f);
+		// a damaged copy of the kenc key file (one base64 character in the middle changed) and a key file holding another key
+		{ FILE *in = fopen("/tmp/leak_kenc.pem", "r"); char buf2[4096]; size_t n = fread(buf2, 1, sizeof buf2, in); fclose(in); buf2[n / 2] = buf2[n / 2] == 'A' ? 'B' : 'A'; f = fopen("/tmp/leak_kenc_bad.pem", "w"); fwrite(buf2, 1, n, f); fclose(f); }
+		f = fopen("/tmp/leak_other.pem", "w"); sm2_private_key_info_encrypt_to_pem(&key2, pb, f); fclose(f);
+		struct { const char *name; int tlcp; const char *chain, *sk, *sp, *ek, *ep; } cases[] = {
+			{ "tls_ctx_key:ok", 0, "/tmp/leak_chain1.pem", "/tmp/leak_sign.pem", pa, NULL, NULL },
+			{ "tls_ctx_key:wrong_password", 0, "/tmp/leak_chain1.pem", "/tmp/leak_sign.pem", wrong, NULL, NULL },
+			{ "tls_ctx_key:key_does_not_match", 0, "/tmp/leak_chain1.pem", "/tmp/leak_kenc.pem", pb, NULL, NULL },
+			{ "tls_ctx_key:no_such_file", 0, "/tmp/leak_chain1.pem", "/tmp/leak_nonexistent.pem", pa, NULL, NULL },
+			{ "tlcp_ctx_keys:ok", 1, "/tmp/leak_chain2.pem", "/tmp/leak_sign.pem", pa, "/tmp/leak_kenc.pem", pb },
+			{ "tlcp_ctx_keys:wrong_sign_password", 1, "/tmp/leak_chain2.pem", "/tmp/leak_sign.pem", wrong, "/tmp/leak_kenc.pem", pb },
+			{ "tlcp_ctx_keys:wrong_kenc_password", 1, "/tmp/leak_chain2.pem", "/tmp/leak_sign.pem", pa, "/tmp/leak_kenc.pem", wrong },
+			{ "tlcp_ctx_keys:passwords_swapped", 1, "/tmp/leak_chain2.pem", "/tmp/leak_sign.pem", pb, "/tmp/leak_kenc.pem", pa },
+			{ "tlcp_ctx_keys:damaged_kenc_file", 1, "/tmp/leak_chain2.pem", "/tmp/leak_sign.pem", pa, "/tmp/leak_kenc_bad.pem", pb },
+			{ "tlcp_ctx_keys:kenc_key_does_not_match", 1, "/tmp/leak_chain2.pem", "/tmp/leak_sign.pem", pa, "/tmp/leak_other.pem", pb },
+			{ "tlcp_ctx_keys:sign_key_does_not_match", 1, "/tmp/leak_chain2.pem", "/tmp/leak_other.pem", pb, "/tmp/leak_kenc.pem", pb },
+			{ "tlcp_ctx_keys:no_such_kenc_file", 1, "/tmp/leak_chain2.pem", "/tmp/leak_sign.pem", pa, "/tmp/leak_nonexistent.pem", pb },
+		};
+		for (size_t i = 0; i < sizeof cases / sizeof cases[0]; i++) {
+			TLS_CTX *tc = calloc(1, sizeof *tc); tls_ctx_init(tc, cases[i].tlcp ? TLS_protocol_tlcp : TLS_protocol_tls12, cases[i].tlcp ? TLS_server_mode : TLS_client_mode);
+			cap_begin();
+			rc = cases[i].tlcp ? tls_ctx_set_tlcp_server_certificate_and_keys(tc, cases[i].chain, cases[i].sk, cases[i].sp, cases[i].ek, cases[i].ep) : tls_ctx_set_certificate_and_key(tc, cases[i].chain, cases[i].sk, cases[i].sp);
+			secret(ds, 32); secret(de, 32); secret(d, 32); secret(pa, strlen(pa)); secret(pb, strlen(pb)); secret(wrong, strlen(wrong));
+			cap_end(cases[i].name, 0, rc);
+			tls_ctx_cleanup(tc); free(tc);
+		}
+		unlink("/tmp/leak_chain1.pem"); unlink("/tmp/leak_chain2.pem"); unlink("/tmp/leak_sign.pem"); unlink("/tmp/leak_kenc.pem"); unlink("/tmp/leak_kenc_bad.pem"); unlink("/tmp/leak_other.pem");
 	}
 	vt_close(); return 0;
 }
